@@ -6,6 +6,7 @@ pub mod c02;
 pub mod c03;
 pub mod c04;
 pub mod c05;
+pub mod c06;
 pub mod c07;
 pub mod c08;
 pub mod c09;
@@ -24,6 +25,7 @@ pub fn run(id: &str, rep: &mut Report) -> bool {
         "C03" => c03::run(rep),
         "C04" => c04::run(rep),
         "C05" => c05::run(rep),
+        "C06" => c06::run(rep),
         "C07" => c07::run(rep),
         "C08" => c08::run(rep),
         "C09" => c09::run(rep),
@@ -47,6 +49,7 @@ pub fn replay(id: &str, v: &Value) -> i32 {
         "C03" => c03::replay(w),
         "C04" => c04::replay(w),
         "C05" => c05::replay(w),
+        "C06" => c06::replay(w),
         "C07" => c07::replay(w),
         "C08" => c08::replay(w),
         "C09" => c09::replay(w),
